@@ -289,3 +289,61 @@ func Harness_C01_block_maxrestarts() {
 	}
 	VerifCover("done")
 }
+
+// bigBlock fills one ref block with n deletion refs named aaaa, aaab, ... at restart interval 1.
+func bigBlock(n int) ([]byte, func(i int) string) {
+	buf := make([]byte, 1<<20)
+	bw := newBlockWriter(blockTypeRef, buf, 0, 20)
+	bw.restartInterval = 1
+	name := func(i int) string {
+		return string([]byte{'a' + byte(i/(26*26*26)), 'a' + byte(i/(26*26)%26), 'a' + byte(i/26%26), 'a' + byte(i%26)})
+	}
+	for i := 0; i < n; i++ {
+		VerifAssert(bw.add(&RefRecord{RefName: name(i), UpdateIndex: uint64(i & 1)}), "fits")
+	}
+	return bw.finish(), name
+}
+
+// Harness_C02_block_manyrestarts: seeks in a block whose restart table is tens of thousands of entries long (offset arithmetic beyond 16 bits).
+// bounds: one concrete block of 30000 refs with restart interval 1 (30000 restart points, restart table of 90000 bytes); seeks for the first, a middle and the last key, keys between two records, before the first and beyond the last; then the scan from there
+// covers: done
+func Harness_C02_block_manyrestarts() {
+	const n = 30000
+	VerifMaxSteps(400000000)
+	data, name := bigBlock(n)
+	br, err := newBlockReader(data, 0, 1<<20, 20)
+	VerifAssert(err == nil, "open")
+	if err != nil {
+		return
+	}
+	probe := func(key string, want int) {
+		it, err := br.seek(key)
+		VerifAssert(err == nil, "seek-err")
+		if err != nil {
+			return
+		}
+		for i := want; i < n && i < want+3; i++ {
+			var got RefRecord
+			ok, err := it.Next(&got)
+			VerifAssert(ok && err == nil, "suffix-short")
+			if !ok || err != nil {
+				return
+			}
+			VerifAssert(got.RefName == name(i), "suffix-name")
+		}
+		if want >= n {
+			var got RefRecord
+			ok, err := it.Next(&got)
+			VerifAssert(err == nil && !ok, "suffix-extra")
+		}
+	}
+	probe("", 0)
+	probe(name(0), 0)
+	probe(name(12345), 12345)
+	probe(name(12345)+"x", 12346)
+	probe(name(21845), 21845)
+	probe(name(n-1), n-1)
+	probe(name(n-1)+"x", n)
+	probe("zzzzz", n)
+	VerifCover("done")
+}
